@@ -15,6 +15,18 @@ T = {
  "C03": ("E1 graphs", "exhaustive enumeration of models x property sets x five strategies x finish conditions/limits; every reported path re-walked on the graph",
          "model_checking", "Every (name, path) returned by discoveries() on every run is validated: real in-boundary execution from an init state; last state violates/satisfies; eventually: no state satisfies and the path is a dead end or (simulation) closes a cycle.",
          "simulation covered for seeds/scripts within the bound; multi-threaded runs here are free-running samples, the schedule quantifier is exercised by E2", "DESIGN §4 C03"),
+ "C04": ("E4 identity", "exhaustive enumeration of all small values of every hashable type and of all constructed/reachable actor-system states; all pairs decided by grouping on a recording hasher's stream, the real fingerprint and component-wise identity",
+         "model_checking", "Every unordered pair within each family is decided: equal component-wise identity => same hasher stream and fingerprint however built; different identity => different stream and fingerprint; == agrees with component-wise identity. End-to-end: bfs unique_state_count equals the number of component-wise distinct reachable states for every zoo system.",
+         "identical recorded write sequences collide under every hasher (sound); differing sequences are additionally compared on the real 64-bit fingerprint (accidental collisions are ~1e-12 likely at these sizes)", "DESIGN §4 C04"),
+ "C06": ("E3 actorstep", "exhaustive enumeration of (constructed system state x enabled action x handler output) triples on the real next_state/actions/init_states vs a reference interpreter; full exploration of scripted systems with canonical keys",
+         "model_checking", "One-step conformance from every constructed (also unreachable) state, for every output of an 819-entry menu, per network kind and history mode; plus every reachable state and edge of 10 scripted systems x 12 configurations.",
+         "reference interpreter (DESIGN appendix A) is the specification; ignored action and successor equal to the source are identified", "DESIGN §4 C06"),
+ "C07": ("E3 actorstep", "exhaustive enumeration of network contents and of all paths to a depth bound of scripted systems, with a ghost ledger fed from the scripts' sends",
+         "model_checking", "len/iter_all/iter_deliverable agree with the contents on every constructible network and at every state along every path; every delivery is of a sent-and-not-consumed envelope; ordered flows deliver in order without duplication; no redelivery after a drop; drops only when lossy.",
+         "ledger sends come from the handler scripts (independent of the network code); consumption from executed actions", "DESIGN §4 C07"),
+ "C09": ("E3 actorstep", "exhaustive enumeration of crash points: every constructed state x budget; differential crashed-vs-up step comparison; monitor over all reachable states; real bfs/dfs visited set vs independent exploration",
+         "fault_enumeration", "Crash offered exactly when allowed; crash step clears timers/choices only; all other actions behave as before; nothing is ever enabled for a crashed actor on any reachable state; every crashed-vector within the budget is reached and the real checkers evaluate every such state.",
+         "reference interpreter and xplore (canonical keys from public fields) trusted", "DESIGN §4 C09"),
  "C11": ("E1 graphs", "exhaustive enumeration of models x eventually masks x strategies vs. maximal-avoiding-path oracle; exactness on oracle-detected forests",
          "model_checking", "No false alarm on any model within the bound; exact on every forest-shaped model within the bound.",
          "oracle (search for a dead end or cycle in the not-P subgraph; path-count forest test) trusted", "DESIGN §4 C11"),
@@ -54,6 +66,8 @@ m = {
            "baseline_off_cmd": "cd /repo && cargo test --workspace --no-fail-fast --offline",
            "source_commits": hook_commits, "add_only": True},
  "engines": [
+   {"name": "E3 actorstep", "path": "harness/src/engines/e3.rs", "serves_properties": ["C06","C07","C09"], "kind_free_text": "explicit enumeration of actor-system states/actions/handler outputs on the real ActorModel vs a reference interpreter; xplore over scripted systems"},
+   {"name": "E4 identity", "path": "harness/src/engines/e4.rs", "serves_properties": ["C04"], "kind_free_text": "all pairs of small values: recording hasher stream, real fingerprint, component-wise identity"},
    {"name": "E1 graphs", "path": "harness/src/engines/e1.rs", "serves_properties": ["C01","C02","C03","C11","C12","C13"], "kind_free_text": "explicit enumeration of all small finite models, executed on the real checkers, compared with graph oracles"},
  ],
  "checks": checks,
